@@ -23,7 +23,8 @@ func init() {
 			"R4 all-or-nothing: once an operation has mutated tags, manifests or blobs no failure return is reachable, so a rejected push or delete leaves the content state (in particular tag bindings) as it was. " +
 			"R2b validate-before-bind: in PushManifest every store into the manifests or tags map is dominated by a successful checkManifest (no short cut for content that is already stored). " +
 			"R2c manifest JSON is decoded as a whole (json.Unmarshal, or a Decoder that is asked for more); R5 no repository is ever removed from Registry.repos. " +
-			"R1b (shared with C01.R1) CheckDescriptor returns nil for data only after the digest and the size comparison, whatever the length of the data.",
+			"R1b (shared with C01.R1) CheckDescriptor returns nil for data only after the digest and the size comparison, whatever the length of the data. " +
+			"R6 (shared with C01.R5 / C01.R8 / C14.R6) the bytes stored for a digest are the registry's own copy and a stored blob is never modified.",
 		NotDecided: "equivalence with the reference model over operation histories (found-until-deleted, last-tag-wins, referrers set equality, which histories succeed) is not decided.",
 		Technique:  "static analysis: SSA dominance of lookup-miss conditions over returns, %w provenance of error values, switch exhaustiveness",
 	})
@@ -180,6 +181,9 @@ func runC02(c *core.Ctx) {
 	manifestsDecodedWhole(c, "C02.R2")
 	// a push whose descriptor disagrees with its content is rejected: CheckDescriptor's nil only after both comparisons
 	relabel(c, "C02.R1", func() { c01CheckDescriptor(c) })
+	// what was pushed is what is found until deleted: the stored bytes are the registry's own (shared with C01.R5 / C14.R6)
+	relabel(c, "C02.R6", func() { c01Immutability(c) })
+	storedBlobDataNeverReassigned(c, "C02.R6")
 	reposNeverForgotten(c, "C02.R5")
 	c05SortedIn(c, "C02.R3", []string{"ocimem"})
 	// R4: a failed operation leaves tags/manifests/blobs untouched (a rejected
